@@ -445,8 +445,9 @@ end Pyro.Gen.C05
 
 # ---- running a history on the real code --------------------------------------------------------------------
 def run_real(h, servertype):
-    rig = c05_rig.LoopRig(servertype, poolsize=h["poolsize"], commtimeout=float(h["commtimeout"]))
-    out = {"stuck": None, "snap": {}, "fresh_pool_full": None}
+    rig = c05_rig.LoopRig(servertype, poolsize=h["poolsize"], commtimeout=float(h["commtimeout"]),
+                          linger=(float(h["linger"]) if h.get("linger") not in (None, "None") else None))
+    out = {"stuck": None, "snap": {}, "fresh_pool_full": None, "outbound": []}
     try:
         objs_before = {k: id(v) for k, v in rig.daemon.objectsById.items()}
         try:
@@ -461,7 +462,10 @@ def run_real(h, servertype):
                     rig.settle_pool()
                     out["snap"]["post"] = rig.accounting()
                     out["fresh_pool_full"] = rig.pool_full() if servertype == "thread" else False
+                before = len(rig.outbound())
                 rig.deliver(st[1], common.unhx(st[2]), st[3], st[4])
+                for where, thread in rig.outbound()[before:]:
+                    out["outbound"].append((i, st[7] if len(st) > 7 else "?", where))
             rig.settle_pool()
             out["snap"]["end"] = rig.accounting()
             out["settled"] = not rig.unsettled
@@ -539,6 +543,16 @@ def reply_matches(rep, want):
 
 def oracle_case(ctx, h, servertype, out, case):
     st = servertype
+    # the daemon never connects out on behalf of a peer: no component of a handshake / call / batch payload may make it
+    # talk to an address the peer chose (a deserialised Proxy whose methods are remote calls)
+    for i, kind, where in out.get("outbound", [])[:1]:
+        comp = kind.split(":")[1] if kind.startswith("proxy:") else "unknown"
+        ctx.fail("outbound-connection:%s:%s" % (st, comp),
+                 "%s server: while handling step %d (a %s payload whose %s is a serialised Pyro5.client.Proxy) the daemon opened a "
+                 "connection to the address named in it (%s): its %s now waits on an endpoint the peer chose - one that never answers "
+                 "wedges %s" % (st, i, "handshake" if comp.startswith("hs") else "call", comp, where,
+                                "request loop" if st == "multiplex" else "worker (or accept loop, when the pool is full)",
+                                "the whole daemon for every client" if st == "multiplex" else "that thread for good"), case)
     if out["stuck"]:
         ctx.fail("stuck:" + st, "%s server got stuck: %s — %s" % (st, out["stuck"], (
             "the worker serving that connection never comes back: it spins or waits although everything the peer will ever send "
@@ -562,11 +576,13 @@ def oracle_case(ctx, h, servertype, out, case):
                     " and nothing is accepted any more" if "acceptor" in who else ""), case)
     # an invalid prefix (>= 6 bytes) is refused at once: no thread may wait for more bytes from that (connected, silent) peer
     silent = {s[1] for s in h["steps"] if s[0] == "send" and s[3] == "silent"}
-    w = [(c, t) for c, t in out.get("waited", []) if c in silent]
+    # ... and without a communication timeout the accept loop / the multiplex loop must never wait for ANY peer that has sent
+    # everything it is going to send for now (e.g. after it has been refused): with a timeout that costs at most the timeout
+    w = [(c, t) for c, t in out.get("waited", []) if c in silent or (t in ("loop", "acceptor") and float(h["commtimeout"]) == 0)]
     if w:
         ctx.fail("waits-for-silent-peer:%s:%s" % (st, w[0][1]),
-                 "%s server: connection %d sent 6..39 bytes that already fail the header check and stays connected without sending "
-                 "more; instead of refusing it the %s waited for further bytes%s"
+                 "%s server: connection %d has sent everything it will send for now (an invalid prefix / a message that was answered "
+                 "or refused) and stays connected; the %s waited for further bytes from it%s"
                  % (st, w[0][0], w[0][1], {"loop": ": the whole multiplex loop stands still", "acceptor": ": nothing is accepted meanwhile",
                                            "worker": ""}[w[0][1]]), case)
     # witnesses: exactly the correct replies to their own calls, still connected
@@ -623,8 +639,32 @@ def _corpus():
     if os.path.isdir(d):
         for f in sorted(os.listdir(d)):
             if f.endswith(".json"):
-                out.append(json.load(open(os.path.join(d, f)))["history"])
+                c = json.load(open(os.path.join(d, f)))
+                h = c["history"]
+                if "trap_port_placeholder" in c:
+                    # the witness names PYRO:trap@127.0.0.1:<placeholder>: point it at this process's black-hole listener
+                    old = ("trap@127.0.0.1:%d" % c["trap_port_placeholder"]).encode()
+                    new = ("trap@127.0.0.1:%d" % c05_rig.Trap.get().blackhole[1]).encode()
+                    for st in h["steps"]:
+                        if st[0] == "send" and old in common.unhx(st[2]):
+                            st[2] = common.hx(_repoint(common.unhx(st[2]), old, new))
+                out.append(h)
     return out
+
+
+def _repoint(msg, old, new):
+    """replace the trap address inside a message's payload and fix the lengths that depend on it"""
+    from Pyro5 import protocol
+    m = protocol.ReceivingMessage(msg[:40], msg[40:])
+    data = bytes(m.data)
+    data = data.replace(old, new)        # the corpus witnesses use the text serializers (serpent, json): no length prefixes
+    from Pyro5.callcontext import current_context
+    saved = current_context.correlation_id
+    current_context.correlation_id = None
+    try:
+        return bytes(protocol.SendingMessage(m.type, m.flags, m.seq, m.serializer_id, data).data)
+    finally:
+        current_context.correlation_id = saved
 
 
 def _nontrivial(h, out):
